@@ -117,6 +117,7 @@ impl<'t, 'd> G<'t, 'd> {
             "/* /* nested */ */",
             "/* trailing blanks   \n   here */",
             "/* t   */",
+            "/* wide\u{3000}\u{3000}\n   blanks\u{a0}\n */",
         ];
         // rarely a directive: whatever follows is then copied verbatim, which must not cost a comment
         if self.focus == Focus::CommentsOff && self.t.chance(14) {
@@ -128,7 +129,11 @@ impl<'t, 'd> G<'t, 'd> {
     }
 
     fn line_comment(&mut self) {
-        const L: &[&str] = &["// c", "//", "// long comment text here", "//c", "// /* x */", "// 注", "// trailing blanks   ", "// t \t"];
+        const L: &[&str] = &[
+            "// c", "//", "// long comment text here", "//c", "// /* x */", "// 注", "// trailing blanks   ", "// t \t",
+            // blanks that are not ASCII at the end of the line: measured by the layout, stripped at the end
+            "// 注\u{3000}\u{3000}\u{3000}", "// nb\u{a0}", "// em\u{2003}\u{2003} ",
+        ];
         let s = if self.focus == Focus::CommentsOff && self.t.chance(14) { "// @typstyle off" } else { self.t.pick(L) };
         self.p(s);
         self.p("\n");
@@ -659,6 +664,48 @@ impl<'t, 'd> G<'t, 'd> {
         self.osp();
         self.p("=>");
         self.osp();
+        // bodies that are statements rather than values (typstyle wraps them in optional braces, where a line
+        // break ends the statement, instead of optional parentheses): assignment, return, let, not, unary
+        // minus -- the whole family of seeded changes around convert_expr_with_optional_paren
+        if self.t.chance(56) {
+            match self.t.below(6) {
+                0 => {
+                    let i = self.ident();
+                    self.p(i);
+                    self.sp();
+                    let op = self.t.pick(&["=", "+=", "="]);
+                    self.p(op);
+                    self.sp();
+                }
+                1 => {
+                    self.p("return");
+                    self.sp();
+                }
+                2 => {
+                    self.p("let");
+                    self.sp();
+                    let i = self.ident();
+                    self.p(i);
+                    self.sp();
+                    self.p("=");
+                    self.sp();
+                }
+                3 => {
+                    self.p("not");
+                    self.sp();
+                }
+                4 => self.p("-"),
+                _ => {
+                    let i = self.ident();
+                    self.p(i);
+                    self.sp();
+                    self.p("=");
+                    self.sp();
+                    self.p("not");
+                    self.sp();
+                }
+            }
+        }
         self.expr(d + 1);
     }
 
@@ -755,6 +802,19 @@ impl<'t, 'd> G<'t, 'd> {
                         }
                     }
                     self.p(".");
+                    // between the dot and the method name (only where a line break cannot end the statement):
+                    // a comment, with or without a line break behind it (seeded change C04-8)
+                    if self.exotic && self.cont > 0 && self.t.chance(self.cmt_gap / 3) {
+                        if self.t.chance(80) {
+                            self.line_comment();
+                            self.p(" ");
+                        } else {
+                            self.block_comment();
+                            if self.t.coin() {
+                                self.newline_indent();
+                            }
+                        }
+                    }
                     let m = self.t.pick(&["map", "filter", "at", "len", "join", "first", "rev", "pos", "x", "fold"]);
                     self.p(m);
                     if self.t.chance(170) {
@@ -1068,7 +1128,7 @@ impl<'t, 'd> G<'t, 'd> {
                 self.p(":");
                 let paren = self.t.chance(80);
                 let n = 1 + self.t.weighted(&[2, 4, 4, 3, 2]);
-                const NAMES: &[&str] = &["b", "a", "c", "Z", "z", "aa", "a1", "a-b", "a_b", "B", "d.e", "d.a", "x.y.z"];
+                const NAMES: &[&str] = &["b", "a", "c", "Z", "z", "aa", "a1", "a-b", "a_b", "B", "d.e", "d.a", "x.y.z", "d . e", "a .b", "x. y .z", "a-c"];
                 let item = |g: &mut Self, _i: usize| {
                     let nm = g.t.pick(NAMES);
                     g.p(nm);
